@@ -2443,7 +2443,10 @@ fn format_unix_timestamp(unix_secs: u64) -> String {
     const SECS_PER_HOUR: u64 = 3600;
     const SECS_PER_DAY: u64 = 86400;
 
-    let days_since_epoch = unix_secs / SECS_PER_DAY;
+    // Clamp to 9999-12-31: the year-by-year conversion below is linear in the year and the
+    // ISO 8601 rendering has four year digits.
+    const MAX_DAYS: u64 = 2_932_896;
+    let days_since_epoch = (unix_secs / SECS_PER_DAY).min(MAX_DAYS);
     let remaining_secs = unix_secs % SECS_PER_DAY;
 
     let hours = remaining_secs / SECS_PER_HOUR;
